@@ -190,6 +190,8 @@ def showLookup : Lookup → String
   sstrategy <class-hex> k=v…         → getStrategy for a strategy class Cassandra ships; model answers with Spec.strategy (C10_strategy)
   resetpol <sessKs> id/addr/dc/rack/t,… …  → new tokenAwareHostPolicy, universe of host objects (index = position), every schema unreadable
   pev add i | addmany i,j | rem i | up i | down i | part m|r|o|k|e | kc ks   → the policy event, answer = dump of the metadata
+  pconc <ev A> / <ev B>              → conducted schedule of two mutators on two goroutines (A parked in its schema read while B runs);
+                                       spec-backed: the dump after a SERIAL order of the two (mutators are atomic)
   pfresh                             → the ghost field `fresh` (keyspaces whose schema is unchanged since the policy last read it)
   psettled                           → the keyspaces of ks0..ks3 that are `settled` = the hypothesis of C10_pick_spec (ties the
                                        harness's spec-backed classification to the theorem's hypothesis)
@@ -252,6 +254,14 @@ def step (s : Cl) (ws : List String) : Cl × String :=
     match parseEvent s ev with
     | none => (s, "bad-op")
     | some e => let p := polStep s.pol e; ({ s with pol := p }, dumpPol p)
+  | "pconc" :: rest =>
+    -- conducted schedule of two mutators (A parked inside its getKeyspaceMetadata call, B run meanwhile): the mutators
+    -- are atomic, so the result is that of a serial order (C10_mutators_linearizable) — with A parked first: A, then B
+    let a := rest.takeWhile (· != "/")
+    let b := (rest.dropWhile (· != "/")).drop 1
+    match parseEvent s a, parseEvent s b with
+    | some ea, some eb => let p := polStep (polStep s.pol ea) eb; ({ s with pol := p }, dumpPol p)
+    | _, _ => (s, "bad-op")
   | ["psch", k, v] =>
     match k.toNat?, parseSchema v with
     | some k, some v => ({ s with pol := polStep s.pol (.setSchema k v) }, "ok")
